@@ -4,6 +4,7 @@ import (
 	"fmt"
 	"go/ast"
 	"go/token"
+	"strconv"
 	"strings"
 
 	"mlverif/core"
@@ -42,7 +43,7 @@ func init() {
 			// the timer callback deletes the same key under the lock
 			okCb := false
 			probeMsg := false
-			ast.Inspect(fn.Decl.Body, func(nd ast.Node) bool {
+			inspectFn(fn, func(nd ast.Node) bool {
 				call, ok := nd.(*ast.CallExpr)
 				if !ok {
 					return true
@@ -154,7 +155,7 @@ func checkRelay(c *Ctx) {
 	c.Check("C19/relay/registers", rule, fn.Decl.Pos(), fresh != "", "the relay does not register an ack handler")
 	// the ping literal and the two replies
 	nPing, nAck, nNack := 0, 0, 0
-	ast.Inspect(fn.Decl.Body, func(n ast.Node) bool {
+	inspectFn(fn, func(n ast.Node) bool {
 		cl, ok := n.(*ast.CompositeLit)
 		if !ok {
 			return true
@@ -209,7 +210,7 @@ func checkRelay(c *Ctx) {
 	}
 	// structure of the nack goroutine
 	okSel, okClose := false, false
-	ast.Inspect(fn.Decl.Body, func(n ast.Node) bool {
+	inspectFn(fn, func(n ast.Node) bool {
 		gs, ok := n.(*ast.GoStmt)
 		if !ok {
 			return true
@@ -261,7 +262,7 @@ func checkRelay(c *Ctx) {
 		}
 		return true
 	})
-	ast.Inspect(fn.Decl.Body, func(n ast.Node) bool {
+	inspectFn(fn, func(n ast.Node) bool {
 		if call, ok := n.(*ast.CallExpr); ok && p.Builtin(call) == "close" {
 			// inside the ack callback literal (not the goroutine)
 			if enc := p.EnclosingFunc(call); enc != nil {
@@ -302,7 +303,7 @@ func elt(cl *ast.CompositeLit, i int, name string) ast.Expr {
 func assignedFromCall(p *core.Prog, fn *core.Func, id *ast.Ident, qual string) bool {
 	obj := p.Info.Uses[id]
 	ok := false
-	ast.Inspect(fn.Decl.Body, func(n ast.Node) bool {
+	inspectFn(fn, func(n ast.Node) bool {
 		if as, isA := n.(*ast.AssignStmt); isA {
 			for i, l := range as.Lhs {
 				if lid, isL := l.(*ast.Ident); isL && i < len(as.Rhs) && (p.Info.Defs[lid] == obj) {
@@ -387,7 +388,7 @@ func checkProbeNode(c *Ctx, prop string) {
 	ruleCap := "the probe's ack and nack channels are buffered for IndirectChecks+1 messages (their senders never block, so a smaller buffer silently drops an answer or the deadline marker)"
 	c.Rule(ruleCap)
 	ncap := 0
-	ast.Inspect(fn.Decl.Body, func(n ast.Node) bool {
+	inspectFn(fn, func(n ast.Node) bool {
 		call, ok := n.(*ast.CallExpr)
 		if !ok || p.Builtin(call) != "make" || len(call.Args) != 2 {
 			return true
@@ -411,7 +412,7 @@ func checkProbeNode(c *Ctx, prop string) {
 	c.Floor("probe channels", ncap, 2)
 	// the indirect request and the TCP fallback carry the probe's own number
 	ind := false
-	ast.Inspect(fn.Decl.Body, func(n ast.Node) bool {
+	inspectFn(fn, func(n ast.Node) bool {
 		if cl, ok := n.(*ast.CompositeLit); ok && core.NamedOf(p.TypeOf(cl)) == "indirectPingReq" {
 			if e := fieldExpr(cl, "SeqNo"); e != nil && norm(p.Canon(e)) == "ping.SeqNo" {
 				ind = true
@@ -482,8 +483,12 @@ func checkProbeNode(c *Ctx, prop string) {
 		}
 		arg := norm(e.Detail["arg0"])
 		if e.Seen["CALL:Memberlist.suspectNode"] > 0 {
-			okF := arg == "0" || strings.HasPrefix(arg, "(0+") || strings.HasPrefix(arg, "((0+")
-			c.Check(prop+"/probe/health-on-failure", ruleH, e.Pos, okF, "failed probe applies delta "+arg+" (must be zero plus a non-negative penalty)")
+			nc := map[string]string{}
+			for k, v := range e.Cube {
+				nc[norm(k)] = v
+			}
+			okF := nonNegName(arg, nc, 0)
+			c.Check(prop+"/probe/health-on-failure", ruleH, e.Pos, okF, "failed probe applies delta "+arg+", which is not provably >= 0 on this path (a failed probe must never improve the health score)")
 		} else {
 			answered := false
 			for k, v := range e.Cube {
@@ -499,4 +504,64 @@ func checkProbeNode(c *Ctx, prop string) {
 			}
 		}
 	}
+}
+
+// splitBinName splits the canonical name "(L op R)" of a sum or difference at
+// its top-level operator.
+func splitBinName(s string) (l, op, r string, ok bool) {
+	if len(s) < 5 || s[0] != '(' || s[len(s)-1] != ')' {
+		return
+	}
+	depth := 0
+	for i := 0; i < len(s); i++ {
+		switch s[i] {
+		case '(', '[', '{':
+			depth++
+		case ')', ']', '}':
+			depth--
+			if depth == 0 && i != len(s)-1 {
+				return // the outer parentheses do not enclose the whole name
+			}
+		case '+', '-':
+			if depth == 1 && i > 1 {
+				return s[1:i], string(s[i]), s[i+1 : len(s)-1], true
+			}
+		}
+	}
+	return
+}
+
+// nonNegName: the integer value with this canonical name is >= 0 under the
+// path condition: a non-negative constant, a length, a sum of such values, a
+// difference whose minuend the path has compared >= its subtrahend, or a value
+// the path has tested against a non-negative constant bound.
+func nonNegName(s string, cube map[string]string, depth int) bool {
+	s = strings.TrimSpace(s)
+	if depth > 6 || s == "" {
+		return false
+	}
+	if v, err := strconv.ParseInt(s, 10, 64); err == nil {
+		return v >= 0
+	}
+	if strings.HasPrefix(s, "zero") {
+		return true // the zero value of a declared variable
+	}
+	for k, v := range cube {
+		if v == "T" && strings.HasPrefix(k, s+">=") {
+			if b, err := strconv.ParseInt(k[len(s)+2:], 10, 64); err == nil && b >= 0 {
+				return true
+			}
+		}
+	}
+	if l, op, r, ok := splitBinName(s); ok {
+		if op == "+" {
+			return nonNegName(l, cube, depth+1) && nonNegName(r, cube, depth+1)
+		}
+		rel := relOf(cube, l, r)
+		return rel == "GT" || rel == "EQ"
+	}
+	if strings.HasPrefix(s, "len(") && strings.HasSuffix(s, ")") {
+		return true
+	}
+	return false
 }
